@@ -124,7 +124,8 @@ def run(chk, ctx):
             if callee_name(t)[0] == ADD:
                 a = [canon(x) for x in P.call_arg_terms(pe, bb)]
                 chk.require(a[1] == "Into::into(try(Parser::get(self)).kind)" and a[2] == "try(Parser::parse_factor(self))", "ORG", "ORG:parse_expr:add-arguments", "add(op of the consumed token, the next factor)", "tree.add receives %s" % a[1:])
-        r = set(canon(P.sl(pe).ret(rb)) for rb in P.cfg(pe).return_blocks())
+        oks = set(canon(pi.ret()) for pi in tab.paths(P, pe, to_return_only=True) if ordrules.ret_shape(pi) == "Ok")
+        chk.require(oks == {"Result::Ok{0: Into::into(parser::binoptree::BinOpTree::Atom{0: try(Parser::parse_factor(self))})}"} or oks == {"Result::Ok{0: Into::into(BinOpTree::Atom{0: try(Parser::parse_factor(self))})}"}, "ORG", "ORG:parse_expr:returns-the-converted-tree", "Ok(tree.into()) with tree seeded by the first factor", "parse_expr returns %s" % sorted(oks))
     pf = P.body(PF)
     if chk.anchor("parse_factor", pf):
         arms = {}
